@@ -204,6 +204,8 @@ def check(tier, seed):
         C.audit_sources()
         C.props_obligations(res, 'C07gen', wd)
         C.tie_b_items(res, wd)
+        from .. import primcheck
+        primcheck.run(res, wd)
         gen_lines = list(res.assumption_lines)
         tb = C.tie_b(res, wd)
         rng = C.rng_for(seed, 'C07')
